@@ -112,6 +112,8 @@ class World:
         kw = _kw(op['kw'])
         api = op.get('api', 'get_run_func')
         step = kw.pop('step_size', 1e-3)
+        if op.get('input'):
+            kw['inputs'] = {op['input']['target']: _input_array(op['input'])}
         fn = getattr(c, api)
         name = op.get('func_name', 'vf')
         res = self._with_fault(op.get('fault'), lambda: fn(name, step, **kw))
@@ -143,6 +145,8 @@ class World:
         kw = _kw(op['kw'])
         T, dt = kw.pop('T'), kw.pop('dt')
         outputs = kw.pop('outputs')
+        if op.get('input'):
+            kw['inputs'] = {op['input']['target']: _input_array(op['input'])}
         rec = None
         fault = op.get('fault')
         if fault and fault['kind'] == 'rhs':
@@ -213,6 +217,11 @@ class World:
         if op.get('as'):
             self.objs[op['as']] = new
         return {'status': 'ok'}
+
+
+def _input_array(inp):
+    k = np.arange(inp['n'])
+    return inp['amp'] * (1.0 + (k % 5) / 4.0 + k / 64.0)
 
 
 def _freeze(x):
